@@ -54,3 +54,65 @@ Proof.
   cbn [extract_funcs]. rewrite Hh. rewrite (extract_inside ls Hls).
   cbn [extract_funcs app]. rewrite Ht1, Ht2. reflexivity.
 Qed.
+
+(** * The closing-brace test of the model is the regex of the source.
+    [rx_func_tail] is regenerated from scripting.rs on every run; the hand matcher
+    [Args.func_tail] equals it on every text, so the hypotheses above can be read
+    on the source pattern. The function-head pattern is pinned as text (the hand
+    matcher [Args.func_head], which also extracts the name, was derived from it). *)
+From Cicada Require Import Base.Regex Gen.ScriptRegexes.
+From Coq Require Import Lia.
+
+Lemma in_cs_single k c : in_cs false [(k, k)] c = (c =? k).
+Proof.
+  unfold in_cs. cbn.
+  destruct (N.leb_spec k c), (N.leb_spec c k), (N.eqb_spec c k); cbn; try reflexivity; lia.
+Qed.
+
+Lemma matchb_Empty s : matchb Empty s = false.
+Proof. induction s as [|c s IH]; [reflexivity|exact IH]. Qed.
+
+Lemma matchb_Eps s : matchb Eps s = is_empty s.
+Proof. destruct s as [|c s]; [reflexivity|]. cbn. apply matchb_Empty. Qed.
+
+Theorem func_tail_is_source_regex s : func_tail s = rx_search rx_func_tail s.
+Proof.
+  unfold func_tail, rx_search.
+  change (rx_full rx_func_tail) with (Cat Eps (Cat (Chr false [(125, 125)]) Eps)).
+  destruct s as [|c s]; [reflexivity|].
+  cbn [matchb deriv nullable andb cat alt]. rewrite in_cs_single.
+  cbn [str_eqb]. change c_rbrace with 125.
+  destruct (c =? 125); cbn [cat alt andb].
+  - rewrite matchb_Eps. destruct s; reflexivity.
+  - now rewrite matchb_Empty.
+Qed.
+
+Example func_head_source_pinned :
+  rx_func_head_src =
+  [94; 102; 117; 110; 99; 116; 105; 111; 110; 32; 40; 91; 97; 45; 122; 65; 45; 90; 95; 45; 93; 91; 97; 45; 122; 65; 45; 90;
+   48; 45; 57; 95; 45; 93; 42; 41; 32; 42; 40; 63; 58; 92; 40; 92; 41; 41; 63; 32; 42; 92; 123; 36].
+Proof. reflexivity. Qed.
+
+(** [plain_line] read on the source regex *)
+Definition plain_line_src (l : str) : bool :=
+  match func_head (trim l) with Some _ => false | None => negb (rx_search rx_func_tail (trim l)) end.
+
+Lemma plain_line_src_eq l : plain_line_src l = plain_line l.
+Proof. unfold plain_line_src, plain_line. now rewrite func_tail_is_source_regex. Qed.
+
+Lemma forallb_plain_src ls : forallb plain_line_src ls = forallb plain_line ls.
+Proof. induction ls as [|l ls IH]; [reflexivity|]. cbn. now rewrite plain_line_src_eq, IH. Qed.
+
+Theorem lines_reach_parser_src ls : forallb plain_line_src ls = true ->
+  extract_funcs ls false [] [] [] [] = ([], join_nl ls).
+Proof. rewrite forallb_plain_src. apply lines_reach_parser. Qed.
+
+Theorem body_lines_reach_function_src h nm ls t rest : forall enter name0 body0 funcs tn,
+  func_head (trim h) = Some nm -> forallb plain_line_src ls = true ->
+  func_head (trim t) = None -> rx_search rx_func_tail (trim t) = true ->
+  extract_funcs (h :: ls ++ t :: rest) enter name0 body0 funcs tn =
+  extract_funcs rest false nm (join_nl ls) (funcs ++ [(nm, join_nl ls)]) tn.
+Proof.
+  intros enter name0 body0 funcs tn Hh Hls Ht1 Ht2. rewrite forallb_plain_src in Hls.
+  rewrite <- func_tail_is_source_regex in Ht2. now apply body_lines_reach_function.
+Qed.
